@@ -102,6 +102,41 @@ pub fn check_packet_roundtrip(out: &mut Outcome, cap: &Captured) {
     }
 }
 
+/// C07 (whole-stack share): within one connection object and packet-number space, the numbers of the packets that
+/// leave the endpoint strictly increase in the order they are assembled (0-RTT and 1-RTT share a space).
+pub fn check_pn_monotone(out: &mut Outcome, cap: &Captured) {
+    for server in [false, true] {
+        for trace in cap.by_trace(server) {
+            let mut last: BTreeMap<&'static str, u64> = BTreeMap::new();
+            let mut seen: BTreeSet<(&'static str, u64)> = BTreeSet::new();
+            for e in trace.iter() {
+                let v = serde_json::to_value(e).unwrap_or_default();
+                if !v["name"].as_str().unwrap_or("").ends_with(":packet_sent") {
+                    continue;
+                }
+                let h = &v["data"]["header"];
+                let Some(pn) = h["packet_number"].as_u64() else { continue };
+                let space = match h["packet_type"].as_str().unwrap_or("?") {
+                    "initial" => "initial",
+                    "handshake" => "handshake",
+                    "0RTT" | "1RTT" => "data",
+                    _ => continue,
+                };
+                out.stats.bump("packets_sent_checked");
+                if !seen.insert((space, pn)) {
+                    out.violate("pn-reuse", space, format!("{} sent two {space} packets with number {pn}", if server { "server" } else { "client" }), pn);
+                } else if let Some(l) = last.get(space) {
+                    if pn <= *l {
+                        out.violate("pn-not-increasing", space, format!("{} sent {space} packet {pn} after {l}", if server { "server" } else { "client" }), pn);
+                    }
+                }
+                let l = last.entry(space).or_insert(pn);
+                *l = (*l).max(pn);
+            }
+        }
+    }
+}
+
 /// C15: the byte ledger kept by the network while the client's address was unvalidated.
 pub fn check_amplification(out: &mut Outcome, net: &SimNet) {
     let g = net.inner.lock().unwrap();
